@@ -38,7 +38,9 @@ Fails(ev) == IF ev.out # "ret" THEN {"raised_" \o ev.out}
 (* modifications, so two spellings of one modified residue - the same modifications listed in another order,        *)
 (* "[1]" against "[1.0]" - are different residues for it (they are equal for ==, for the ordered search and for      *)
 (* coverage).  Exactly: the answer is bag inclusion of the per-residue texts.                                        *)
-ResidueTextBag(A) == Bag([ p \in 1..NRes(A) |-> A.seq[p] \o ModsText(ModsAt(A, p - 1), "[", "]", FALSE) ])
+(* the text of every one-residue piece as split() cuts it: the residue with its modifications, global isotope labels  *)
+(* on every piece, labile and N-terminal modifications on the first, C-terminal ones on the last                       *)
+ResidueTextBag(A) == Bag([ p \in 1..NRes(A) |-> Write(Piece(A, p - 1), FALSE) ])
 Dev_C16_UnorderedComparesText(ev) ==
     /\ ev.op = "unordered" /\ ev.out = "ret"
     /\ ev.res = BagIncluded(ResidueTextBag(ev.Q), ResidueTextBag(ev.T))
